@@ -118,6 +118,30 @@ func (e editor) leaf(from *Selection, to *Selection, m meta.Leafable, new bool, 
 	return nil
 }
 
+// checkNewKey puts the components of the key of an entry that is about to be made to the
+// constraints its key leaves are written under
+func (e editor) checkNewKey(to *Selection, m *meta.List, key []val.Value) error {
+	for i, k := range m.KeyMeta() {
+		if i >= len(key) || key[i] == nil {
+			continue
+		}
+		r := FieldRequest{
+			Request: Request{
+				Selection: to,
+				Path:      &Path{Parent: to.Path, Meta: k},
+				Base:      e.basePath,
+			},
+			Meta:  k,
+			Write: true,
+		}
+		hnd := ValueHandle{Val: key[i]}
+		if _, err := to.Constraints.CheckFieldPreConstraints(&r, &hnd); err != nil {
+			return err
+		}
+	}
+	return nil
+}
+
 // keepsEntryKey refuses a value for a key leaf of the list entry an edit is addressed at that is not
 // the key the entry was selected by: the entry would show another key than the one it is filed under, and a second entry
 // with that key may exist already.
@@ -368,6 +392,13 @@ func (e editor) list(from *Selection, to *Selection, m *meta.List, new bool, str
 			}
 		}
 		toRequest.New = true
+		if toChild == nil && strategy != editUpdate {
+			// the key leaves are written like any other leaf once the entry is made: an entry
+			// under a key they then refuse would stay behind
+			if err = e.checkNewKey(to, m, key); err != nil {
+				return err
+			}
+		}
 		switch strategy {
 		case editUpdate:
 			if toChild == nil {
